@@ -146,7 +146,7 @@ func (in *Interp) call(fn *ssa.Function, env []Value, args []Value, caller *fram
 	}
 	in.depth++
 	if in.depth > maxDepth {
-		panic(pathAbort{"unwind", "call depth exceeded in " + fn.String()})
+		panic(pathAbort{"overflow", "call depth exceeded in " + fn.String()})
 	}
 	defer func() { in.depth-- }()
 	fr := &frame{in: in, fn: fn, locals: make(map[ssa.Value]Value, 16), env: env, caller: caller}
